@@ -122,7 +122,7 @@ fn result_alpha_subnormal<T: Fx>(ao: f64) -> bool { ao > 0.0 && ao < T::tiny().t
 fn straight(co: f64, ao: f64) -> f64 { if ao > 0.0 { co / ao } else { 0.0 } }
 
 // ------------------------------------------------------------------------------------------------
-fn run_blend<C, T, const N: usize>(out: &mut Out, ty: &str, cases: &[Case<T, N>])
+pub(crate) fn run_blend<C, T, const N: usize>(out: &mut Out, ty: &str, cases: &[Case<T, N>])
 where T: Fx, C: ArrayCast<Array = [T; N]> + Premultiply<Scalar = T> + Blend + Clone, Alpha<C, T>: Blend, PreAlpha<C>: Blend,
 {
     let fo: [fn(C, C) -> C; 11] = [C::multiply, C::screen, C::overlay, C::darken, C::lighten, C::dodge, C::burn, C::hard_light, C::soft_light, C::difference, C::exclusion];
@@ -227,7 +227,7 @@ fn acls<T: Fx>(a: T) -> &'static str {
     if a == T::zero() { "0" } else if a == T::one() { "1" } else if !a.is_norm() { "subnormal" } else if a.to64() < 1e-30 { "tiny" } else { "mid" }
 }
 
-fn run_compose<C, T, const N: usize, const M: usize>(out: &mut Out, ty: &str, cases: &[Case<T, N>], rng: &mut Rng)
+pub(crate) fn run_compose<C, T, const N: usize, const M: usize>(out: &mut Out, ty: &str, cases: &[Case<T, N>], rng: &mut Rng)
 where T: Fx, C: ArrayCast<Array = [T; N]> + Premultiply<Scalar = T> + Compose + BlendWith<Color = C> + Clone + core::ops::Mul<Output = C> + core::ops::Mul<T, Output = C>,
       Alpha<C, T>: Compose + BlendWith<Color = C>, PreAlpha<C>: Compose + BlendWith<Color = C> + ArrayCast<Array = [T; M]>,
       Equations: palette::blend::BlendFunction<C>,
@@ -477,7 +477,7 @@ fn pack<T: Fx, const N: usize>(pairs: &[(T, T)], alphas: &[(T, T)], out: &mut Ve
 }
 
 /// `frac`: which share of the full grid product to keep (1.0 = exhaustive grid)
-fn gen_cases<T: Fx, const N: usize>(rng: &mut Rng, frac: f64, n_rand: usize) -> Vec<Case<T, N>> {
+pub(crate) fn gen_cases<T: Fx, const N: usize>(rng: &mut Rng, frac: f64, n_rand: usize) -> Vec<Case<T, N>> {
     let cg = colour_grid::<T>(); let ag = alpha_grid::<T>();
     let mut pairs = vec![]; for &a in &cg { for &b in &cg { pairs.push((a, b)); } }
     let mut alphas = vec![]; for &a in &ag { for &b in &ag { alphas.push((a, b)); } }
@@ -553,5 +553,7 @@ pub fn run(tier: &str, seed: u64, dir: &str) {
     let th = tier == "thorough";
     run_floats!(&mut out, &mut rng, f32, th);
     run_floats!(&mut out, &mut rng, f64, th);
+    // coverage audit: further entry points / type parameters (`c08_more.rs`).  Called last, so that the case stream above is unchanged.
+    crate::c08_more::run_more(&mut out, &mut rng, th);
     out.finish(dir, "");
 }
